@@ -320,6 +320,11 @@ func runC03(c *Ctx) {
 
 	// ---- C03.wait: the typed waits examine every message they read
 	checkWaits(c)
+	// a response is typed by "the request previously sent": the request must be registered before its bytes can reach the
+	// peer and never again afterwards (else an answered request is matched twice), and a sent Set Chunk Size must be
+	// applied after the announcing message went out (else the peer cannot decode the packets that follow)
+	checkRegistrationOrder(c, "C03.txn")
+	checkChunkSizeAppliedAs(c, "C03.ctl")
 
 	// ---- C03.order
 	checkMarshalOrder(c, pts)
@@ -594,15 +599,89 @@ func checkWaits(c *Ctx) {
 				}
 			}
 		})
-		// the decoded packet's type is compared with the requested type
+		// the decoded packet's type is compared with the requested type, in this direction: the PACKET's dynamic type must
+		// be assignable to the requested type (which may be an interface the packet implements)
 		cmp := false
 		core.EachInstr(fn, func(in ssa.Instruction) {
-			if call, ok := in.(*ssa.Call); ok && call.Call.IsInvoke() && call.Call.Method.Name() == "AssignableTo" {
+			call, ok := in.(*ssa.Call)
+			if !ok || !call.Call.IsInvoke() || call.Call.Method.Name() != "AssignableTo" {
+				return
+			}
+			// receiver: reflect.TypeOf(decoded packet); argument: derived from the requested pointer's type (.Elem())
+			fromDecode := func(v ssa.Value) bool {
+				for d := 0; d < 8; d++ {
+					switch x := v.(type) {
+					case *ssa.Call:
+						if x.Call.StaticCallee() != nil && core.FullName(x.Call.StaticCallee()) == "reflect.TypeOf" {
+							v = x.Call.Args[0]
+							continue
+						}
+						if x.Call.StaticCallee() != nil && core.FuncName(x.Call.StaticCallee()) == "(*Protocol).DecodeMessage" {
+							return true
+						}
+						return false
+					case *ssa.Extract:
+						v = x.Tuple
+					case *ssa.MakeInterface:
+						v = x.X
+					case *ssa.ChangeInterface:
+						v = x.X
+					case *ssa.UnOp:
+						// a spilled variable: look at what is stored
+						stored := false
+						if al, isA := x.X.(*ssa.Alloc); isA {
+							for _, r := range *al.Referrers() {
+								if st, isSt := r.(*ssa.Store); isSt && st.Addr == ssa.Value(al) {
+									v, stored = st.Val, true
+								}
+							}
+						}
+						if !stored {
+							return false
+						}
+					default:
+						return false
+					}
+				}
+				return false
+			}
+			fromRequested := func(v ssa.Value) bool {
+				for d := 0; d < 8; d++ {
+					switch x := v.(type) {
+					case *ssa.Call:
+						if x.Call.IsInvoke() && x.Call.Method.Name() == "Elem" {
+							v = x.Call.Value
+							continue
+						}
+						if x.Call.StaticCallee() != nil && core.FullName(x.Call.StaticCallee()) == "reflect.TypeOf" {
+							_, isParam := core.StripConv(x.Call.Args[0]).(*ssa.Parameter)
+							return isParam
+						}
+						return false
+					case *ssa.UnOp:
+						stored := false
+						if al, isA := x.X.(*ssa.Alloc); isA {
+							for _, r := range *al.Referrers() {
+								if st, isSt := r.(*ssa.Store); isSt && st.Addr == ssa.Value(al) {
+									v, stored = st.Val, true
+								}
+							}
+						}
+						if !stored {
+							return false
+						}
+					default:
+						return false
+					}
+				}
+				return false
+			}
+			if fromDecode(call.Call.Value) && len(call.Call.Args) == 1 && fromRequested(call.Call.Args[0]) {
 				cmp = true
 			}
 		})
 		R.Check(cmp, "C03.wait", "rtmp|"+w.fn+"|type-compared", P.Pos(fn.Pos()),
-			"the decoded packet's dynamic type is compared with the requested type", "the decoded packet's type is never compared with the requested type", nil)
+			"the decoded packet's dynamic type is tested for assignability to the requested type", "the typed wait does not test 'type of the decoded packet is assignable to the requested type' (missing, or the direction is swapped): a wait for an interface type the packets implement never matches", nil)
 	}
 	if fn := P.Func("rtmp", "(*Protocol).ExpectMessage"); R.Anchor(fn != nil, "C03.wait", "rtmp.(*Protocol).ExpectMessage") {
 		cmp := false
